@@ -1,7 +1,6 @@
-"""C18 defect demo: fit returns a point with a LARGER cost than its start when target_param is not in the model's
+"""C18 defect demo (REPAIRED in /repo by 050ae69, the C07 index-order fix): fit returned a point with a LARGER cost than its start when target_param is not in the model's
 parameter order (here ['gamma', 'beta'] on SIR): the gradient handed to L-BFGS-B is permuted (C07 index-order defect),
-its line search ends on a warning and the step is accepted.  Repaired by the C07 index-order patches.
-Run from the framework root:  /venv/bin/python findings/C18_worse_than_start_demo.py      (VERIF_REPO=<tree>)"""
+its line search ends on a warning and the step is accepted.  Run from the framework root:  /venv/bin/python findings/C18_worse_than_start_demo.py      (VERIF_REPO=<tree>)"""
 import json, os, sys
 ROOT = os.path.dirname(os.path.dirname(os.path.abspath(__file__))); sys.path.insert(0, ROOT)
 from harness import bootstrap; bootstrap.init()
